@@ -18,17 +18,17 @@ CHECKS = {
     "C04": dict(
         engine="mcx", category="model_checking", design="5/C04",
         technique="stateless deviation-bounded exploration (<=2 network deviations: drop/dup/delay/replay of any recorded datagram) of the real client+server stack under a virtual clock; reference-model monitor (multiset of sent payloads, set of accepted datagrams)",
-        text="All executions with <=2 deviations over 60 (quick) / ~250 (thorough) program configurations (direction x retry mode x single/fragmented x macro step moving the 32-datagram or 256-message window x ack blackout) are run on the implementation; every delivery is checked against the multiset sent and every byte-identical copy of an accepted datagram must be dropped whole (full state snapshot compare).",
+        text="All executions with <=2 deviations (thorough: 3 on a sub-set) over ~100 (quick) / ~300 (thorough) program configurations (direction x retry mode x single/fragmented x macro step moving the 32-datagram or 256-message window x ack blackout x round-trip time x frame length x keep-alive interval), with replay points indexed by the receiver's lag (1, 31, 32, 33 / every lag to 40), are run on the implementation; every delivery is checked against the multiset sent and every byte-identical copy of an accepted datagram must be dropped whole (full state snapshot compare).",
         note="payload contents from a marker family; <=2 independent network faults per execution (macro faults make the window-moving histories reachable); crypto primitives trusted"),
     "C05": dict(
         engine="mcx", category="model_checking", design="5/C05",
         technique="stateless deviation-bounded exploration of the real stack: boundary payload lengths x MTU x API x direction with every single datagram loss, plus <=2 deviations (drop/dup/delay) and blackouts on representative sizes; bounded-liveness oracle on a healed network",
-        text="Every boundary length (around P, P-6, k*F, k*F+P-6) for 4 (quick) / 11 (thorough) MTUs through the four guaranteed-send APIs, honest and with each single loss in the first rounds; representative sizes under all <=2-deviation schedules and 6 blackout shapes with concurrent traffic. Delivery must happen within 6 virtual seconds of the network healing while both ends stay CONNECTED.",
+        text="Every boundary length (around P, P-6, k*F, k*F+P-6) for 4 (quick) / 11 (thorough) MTUs through the four guaranteed-send APIs, honest and with each single loss in the first rounds; representative sizes under all <=2-deviation schedules (thorough: 3 on a sub-set) and 6 blackout shapes with concurrent traffic, a 300-message burst behind the guaranteed message, a second fragmented guaranteed message in flight during a 3 s outage, RTT above the resend interval, 60 Hz frames and a 0.5 s keep-alive/resend interval. Delivery must happen within 6 virtual seconds of the network healing while both ends stay CONNECTED.",
         note="liveness is bounded by a horizon (6 s + fragment count); lengths between the boundaries and MTUs not listed are not run in quick; tick 1/64 s"),
     "C07": dict(
         engine="mcx", category="model_checking", design="5/C07",
         technique="stateless deviation-bounded exploration (<=2 of drop/dup/delay 2,8,70 ticks on any data or ack datagram; blackout and long-frame parameters) of the real stack; monitor with virtual timestamps relating every callback to the peer's delivery log and to the send time",
-        text="All <=2-deviation schedules over 36 (quick) / ~500 (thorough) configurations of direction x retry mode x single/fragmented x ack/data blackout x owner stall; cb(True) is checked against the peer application's delivery log at that instant, cb(False) against the timeout, callback counts at quiescence, and assembled == acked + timeouts + pending at every tick on both ends.",
+        text="All <=2-deviation schedules (thorough: 3 on a sub-set) over ~86 (quick) / ~700 (thorough) configurations of direction x retry mode x single/fragmented x ack/data blackout x owner stall x round-trip time (above the resend interval) x staggered second send x 60 Hz frames x keep-alive interval x bidirectional traffic, plus a 45-datagram stream at 1/50 s frames with withheld acks; cb(True) is checked against the peer application's delivery log at that instant, cb(False) against the timeout, callback counts at quiescence, and assembled == acked + timeouts + pending at every tick on both ends.",
         note="forged/stale ack fields are covered by C01/C04 (they are rejected before ack processing); <=2 deviations; timeout 1.0 s"),
     "C16": dict(
         engine="enum", category="exploration", design="5/C16",
